@@ -15,10 +15,11 @@ JoinToksT == {"if", "else", "end", "call", "loop", "endloop", "grow"}
 S4 == {4}
 (* Dimensions the driver adds to every program (not part of the token alphabet):
    Provenances  where the two address values come from: "param" (the caller), "const" (constants in the body), "narrow" (a
-                sign-extending 16-bit load inside the function, for addresses that are the sign extension of their low half);
+                sign-extending 16-bit load inside the function, for addresses that are the sign extension of their low half), "wrap"
+                (i32.wrap_i64 of a 64-bit value whose upper half is a marker);
    MemKinds     "own" (defined by the module) or "imported" (defined by another module);
    CalleeKinds  what call / callgrow call: functions of the module, imported host functions, host functions that re-enter. *)
-Provenances == {"param", "const", "narrow"}
+Provenances == {"param", "const", "narrow", "wrap"}
 MemKinds == {"own", "imported"}
 S13 == {1, 3}
 S1 == {1}
